@@ -503,9 +503,17 @@ func (in *Interp) model() ([]uint64, []UFEntry, *Model, bool) {
 func (in *Interp) reportViolation(kind, msg, site string) {
 	inputs, ufs, _, ok := in.model()
 	v := &Violation{Harness: in.harness, Msg: msg, Site: site, Kind: kind, Decision: append([]Decision(nil), in.dec...), Stack: in.stackTrace()}
+	for _, d := range in.dec {
+		if d.Kind == "sc" || d.Kind == "sl" {
+			v.Scheduled = true
+		}
+	}
 	if ok {
 		v.Inputs = inputs
 		v.UFTable = ufs
+		for _, t := range in.hidden {
+			v.Hidden = append(v.Hidden, in.curModel.evalT(t))
+		}
 	} else {
 		v.Msg += " (no model: solver did not return sat for the path condition)"
 	}
@@ -519,6 +527,11 @@ func (in *Interp) pathWitness() *CoverWitness {
 		return nil
 	}
 	w := &CoverWitness{Inputs: inputs, UFTable: ufs}
+	for _, d := range in.dec {
+		if d.Kind == "sc" || d.Kind == "sl" {
+			w.Scheduled = true
+		}
+	}
 	for _, o := range in.obs {
 		line := o.tag
 		for _, t := range o.vals {
@@ -527,6 +540,60 @@ func (in *Interp) pathWitness() *CoverWitness {
 		w.Obs = append(w.Obs, line)
 	}
 	return w
+}
+
+// ReplayConcrete re-executes a recorded counterexample in the engine with every input
+// fixed to the model's value and the recorded choices/schedule; true if the same kind of
+// violation occurs again. Used for schedule-dependent counterexamples, which a native run
+// under Go's own scheduler cannot be forced to follow.
+func (e *Engine) ReplayConcrete(h *HarnessSpec, v *Violation, lim Limits) bool {
+	if len(v.UFTable) > 0 {
+		return false // uninterpreted functions need the solver's interpretation
+	}
+	solver, err := NewSolver(0)
+	if err != nil {
+		return false
+	}
+	defer solver.Close()
+	var prefix []Decision
+	for _, d := range v.Decision {
+		if d.Kind == "ch" || d.Kind == "sc" || d.Kind == "sl" {
+			prefix = append(prefix, d)
+		}
+	}
+	in := e.newInterp(h, solver, prefix, lim)
+	in.concrete = append([]uint64{}, v.Inputs...)
+	if in.concrete == nil {
+		in.concrete = []uint64{}
+	}
+	in.concreteHidden = v.Hidden
+	pr := in.res
+	solver.BeginPath()
+	confirmed := false
+	func() {
+		defer in.killAll()
+		defer func() {
+			r := recover()
+			switch r := r.(type) {
+			case violationStop:
+				confirmed = len(pr.Violations) > 0
+			case targetPanic:
+				confirmed = v.Kind == "panic" || strings.Contains(v.Msg, "deadlock") && strings.Contains(r.msg, "deadlock")
+			}
+		}()
+		in.ensureInit(h.Fn.Pkg)
+		in.callSSA(nil, token.NoPos, h.Fn, nil, nil)
+		in.drain()
+		if lk := in.leaked(); len(lk) > 0 && v.Kind == "leak" {
+			confirmed = true
+		}
+		for _, m := range in.mutexes {
+			if (m.writer || m.readers > 0) && v.Kind == "lock" {
+				confirmed = true
+			}
+		}
+	}()
+	return confirmed
 }
 
 // findHarnesses locates Verif_* functions in the loaded packages.
